@@ -180,12 +180,20 @@ def _check_string(units_obj, scales, factors, out, key_prefix):
         for v in (_FLOAT, _INT, _ARR):
             v_in = v.copy() if isinstance(v, np.ndarray) else v
             c = units_obj.convert_units(v, s)
+            # purity: the argument is not modified (the result is a new array)
+            if isinstance(v, np.ndarray) and (not np.array_equal(v, v_in) or c is v):
+                bad = ("convert_units modified or returned its array argument", v_in, v, fac)
+                break
             # P0 value agrees with the independent factor
             if not _close(c, np.asarray(v_in, dtype=float) / fac):
                 bad = ("conversion differs from base-unit factor", v_in, c, fac)
                 break
             # P1 round trip
+            c_in = c.copy() if isinstance(c, np.ndarray) else c
             back = units_obj.convert_units(c, s, to_si=True)
+            if isinstance(c, np.ndarray) and (not np.array_equal(c, c_in) or back is c):
+                bad = ("convert_units(to_si=True) modified or returned its array argument", c_in, c, fac)
+                break
             if not _close(back, v_in):
                 bad = ("round trip does not return the value", v_in, back, fac)
                 break
